@@ -7,6 +7,7 @@ import (
 	"bufio"
 	"context"
 	"fmt"
+	"google.golang.org/grpc/codes"
 	"io"
 	"os"
 	"path/filepath"
@@ -601,6 +602,42 @@ func scenarios() []scenario {
 			})
 			rt.Go("add-ni", func() { defer wg.Done(); rt.Emit("add-ni", fmt.Sprint(s.AddNetworkInstance("NEW"))) })
 			wg.Wait()
+		}, check: basic},
+		{name: "S10-abandoned-get-over-both-instances-vs-writers", body: func() {
+			s := newServer()
+			stub := wire.New(s)
+			primary(s, "p", one)
+			r := s.VerifRIB()
+			r.AddEntry(D, ribx.Op(1, D, spb.AFTOperation_ADD, nh1))
+			r.AddEntry(D, ribx.Op(2, D, spb.AFTOperation_ADD, nh2))
+			r.AddEntry(D, ribx.Op(3, D, spb.AFTOperation_ADD, g1))
+			r.AddEntry(V, ribx.Op(4, V, spb.AFTOperation_ADD, nh1))
+			r.AddEntry(V, ribx.Op(5, V, spb.AFTOperation_ADD, nh2))
+			var wg vsync.WaitGroup
+			wg.Add(3)
+			rt.Go("get-abandoned", func() {
+				defer wg.Done()
+				c, err := stub.Get(context.Background(), &spb.GetRequest{NetworkInstance: &spb.GetRequest_All{All: &spb.Empty{}}, Aft: spb.AFTType_ALL})
+				if err != nil {
+					return
+				}
+				st := stub.Gets[len(stub.Gets)-1]
+				c.Recv()
+				st.Abort(codes.Canceled) // the client goes away after the first response
+			})
+			rt.Go("modify", func() {
+				defer wg.Done()
+				doModify(s, "p", stamped(11, V, spb.AFTOperation_ADD, ribx.NHEntry(3, "3.3.3.3"), one), stamped(12, D, spb.AFTOperation_ADD, ribx.NHEntry(3, "3.3.3.3"), one))
+			})
+			rt.Go("flush", func() {
+				defer wg.Done()
+				_, err := s.Flush(context.Background(), &spb.FlushRequest{NetworkInstance: &spb.FlushRequest_Name{Name: V}, Election: &spb.FlushRequest_Id{Id: one.Proto()}})
+				rt.Emit("flush", fmt.Sprint(err))
+			})
+			wg.Wait()
+			rt.Quiesce()
+			// afterwards every instance must still be writable
+			doModify(s, "p", stamped(21, V, spb.AFTOperation_ADD, ribx.NHEntry(4, "4.4.4.4"), one), stamped(22, D, spb.AFTOperation_ADD, ribx.NHEntry(4, "4.4.4.4"), one))
 		}, check: basic},
 		{name: "S7-add-network-instance-vs-get-flush", body: func() {
 			s := newServer()
